@@ -83,7 +83,7 @@ class RecWriter:
 
 
 class Outcome:
-    __slots__ = ("status", "error", "blocks", "labels", "symbols", "exc_type", "program")
+    __slots__ = ("status", "error", "blocks", "labels", "symbols", "exc_type", "program", "exc")
 
     def __init__(self):
         self.status = None  # 'ok' | 'err' (non-None return) | 'exc' (raised) | 'timeout'
@@ -93,6 +93,7 @@ class Outcome:
         self.symbols = {}
         self.exc_type = None
         self.program = None
+        self.exc = None
 
     @property
     def accepted(self):
@@ -168,6 +169,8 @@ def assemble(src: str, rom: str | None = None, filename: str = "m.s", files=None
             raise
         out.status = "exc"
         out.exc_type = type(e).__name__
+        if keep_program:
+            out.exc = e
         try:
             out.error = str(e)
         except Exception:  # pragma: no cover
